@@ -38,6 +38,14 @@ func TestMinimal(t *testing.T) {
 		c := &Thresh{Setup: Setup{Proto: "Http1", Hosts: []string{"ok", "ok"}, Thr: [4]uint32{1, 0, 0, 1}, GlobalMs: 8000}, Dim: "requests", M: 1}
 		one("requests-overflow-then-idle/Http1", true, c, func() { runThresh(t, "minimal", c) })
 	}
+	// the upstream side vanishes under a request that is then retried: the retry finds no connectable host
+	// (xprotocol: no pool at all); the admitted retry's unit of the retries resource must come back
+	for _, proto := range []string{"bolt", "Http1"} {
+		proto := proto
+		b := &Batch{Setup: Setup{Proto: proto, Hosts: []string{"ok"}, Thr: [4]uint32{0, 0, 1, 0}, GlobalMs: 2000, RetryOn: true, NumRetries: 2},
+			Conns: []ConnPlan{{Reqs: []ReqPlan{{Tok: "k1", Attempts: []Attempt{{Kind: "vanish"}}}}, Client: "wait"}}}
+		one("vanish-then-retry-max_retries=1/"+proto, true, b, func() { runBatch(t, "minimal", b) })
+	}
 	// one history per failure path and protocol
 	paths := map[string][]Attempt{
 		"timeout": {{Kind: "stall"}},
